@@ -12,7 +12,9 @@
 //   tick                            every timestamp becomes old, every trash deadline expires
 // Process ops (each runs in a CHILD process = one keepstore process lifetime; the child dies by
 // SIGKILL at the chosen point or exits right after the operation returned):
-//   put:<B>:<mode>                  PUT /<md5 B> through the router        mode = run | k<i> | c<i>
+//   put:<B>:<mode>                  PUT /<md5 B> through the router        mode = run | k<i> | c<i> | m<j>x<n>
+//                                   (m: the context is cancelled when WriteBlock, having read j
+//                                   chunks of n bytes from putWithPipe's pipe, asks for more)
 //   wb:<B>:<chunk>:<rd>:<limit>:<mode>  UnixVolume.WriteBlock with a scripted reader
 //                                   rd = eof | e<j> (error after j chunks) | x<j> (SIGKILL in the
 //                                   Read call after j chunks); limit = RLIMIT_FSIZE bytes (0 = none)
@@ -161,6 +163,72 @@ func verifC02Request(method, path string, body []byte) *http.Request {
 
 // ---------------------------------------------------------------------------- child process
 
+// verifC02Gate stands in for the UnixVolume in the child's volume manager during a PUT. Put is
+// UnixVolume.Put's one line (`putWithPipe(ctx, loc, block, v)`, tied in Tie/C02.lean) with the gate
+// as the BlockWriter, so that the reader WriteBlock gets from putWithPipe can be wrapped; Compare
+// and Put remember the request context, so that "cancel" can wait until it really is done.
+type verifC02Gate struct {
+	*UnixVolume
+	mu   sync.Mutex
+	ctx  context.Context
+	wrap func(io.Reader) io.Reader
+}
+
+func (g *verifC02Gate) setCtx(ctx context.Context) {
+	g.mu.Lock()
+	g.ctx = ctx
+	g.mu.Unlock()
+}
+
+func (g *verifC02Gate) getCtx() context.Context {
+	g.mu.Lock()
+	defer g.mu.Unlock()
+	return g.ctx
+}
+
+func (g *verifC02Gate) Compare(ctx context.Context, loc string, expect []byte) error {
+	g.setCtx(ctx)
+	return g.UnixVolume.Compare(ctx, loc, expect)
+}
+
+func (g *verifC02Gate) Put(ctx context.Context, loc string, block []byte) error {
+	g.setCtx(ctx)
+	return putWithPipe(ctx, loc, block, g)
+}
+
+func (g *verifC02Gate) WriteBlock(ctx context.Context, loc string, rdr io.Reader) error {
+	if g.wrap != nil {
+		rdr = g.wrap(rdr)
+	}
+	return g.UnixVolume.WriteBlock(ctx, loc, rdr)
+}
+
+// verifC02GateReader hands WriteBlock at most chunk bytes per Read and fires once, in the Read
+// call that follows the cancelAfter-th chunk.
+type verifC02GateReader struct {
+	inner       io.Reader
+	chunk       int
+	cancelAfter int
+	delivered   int
+	fired       bool
+	fire        func()
+}
+
+func (r *verifC02GateReader) Read(p []byte) (int, error) {
+	if !r.fired && r.delivered == r.cancelAfter {
+		r.fired = true
+		r.fire()
+	}
+	if len(p) > r.chunk {
+		p = p[:r.chunk]
+	}
+	n, err := r.inner.Read(p)
+	if n > 0 {
+		r.delivered++
+	}
+	return n, err
+}
+
 type verifC02Reader struct {
 	data      []byte
 	chunk     int
@@ -221,6 +289,18 @@ func TestVerifC02Child(t *testing.T) {
 	if len(mode) > 1 && (mode[0] == 'k' || mode[0] == 'c') {
 		target, _ = strconv.Atoi(mode[1:])
 	}
+	midAfter, midChunk := -1, 0
+	if len(mode) > 1 && mode[0] == 'm' {
+		jc := strings.Split(mode[1:], "x")
+		if len(jc) != 2 {
+			panic("bad m mode")
+		}
+		midAfter, _ = strconv.Atoi(jc[0])
+		midChunk, _ = strconv.Atoi(jc[1])
+		if midChunk < 1 {
+			panic("bad m mode")
+		}
+	}
 	lifetime := time.Hour
 	if f[0] == "del" && f[2] == "0" {
 		lifetime = 0
@@ -232,6 +312,45 @@ func TestVerifC02Child(t *testing.T) {
 	}
 	resp := &verifC02Resp{ResponseRecorder: httptest.NewRecorder(), closed: make(chan bool, 1)}
 	handlerDone := make(chan struct{})
+	var gate *verifC02Gate
+	if f[0] == "put" {
+		mnt := srv.volmgr.AllWritable()[0]
+		gate = &verifC02Gate{UnixVolume: mnt.Volume.(*UnixVolume)}
+		mnt.Volume = gate
+	}
+	// the client goes away now; returns when the request context is done (and, for a cancellation
+	// seen from the WriteBlock goroutine, when the handler has answered, so that what the writer
+	// sees next does not depend on goroutine scheduling)
+	cancelNow := func(waitHandler bool) {
+		time.Sleep(5 * time.Millisecond)
+		resp.closed <- true
+		if gate != nil {
+			if ctx := gate.getCtx(); ctx != nil {
+				select {
+				case <-ctx.Done():
+				case <-time.After(60 * time.Second):
+					say("R cancel-timeout")
+					os.Exit(0)
+				}
+			}
+		}
+		if waitHandler {
+			select {
+			case <-handlerDone:
+			case <-time.After(60 * time.Second):
+				say("R cancel-timeout")
+				os.Exit(0)
+			}
+		}
+	}
+	if gate != nil && midAfter >= 0 {
+		gate.wrap = func(r io.Reader) io.Reader {
+			return &verifC02GateReader{inner: r, chunk: midChunk, cancelAfter: midAfter, fire: func() {
+				say("C")
+				cancelNow(true)
+			}}
+		}
+	}
 	var mu sync.Mutex
 	count := 0
 	verifPointHook.Store(func(id string) {
@@ -247,21 +366,7 @@ func TestVerifC02Child(t *testing.T) {
 			syscall.Kill(os.Getpid(), syscall.SIGKILL)
 			select {}
 		}
-		// cancel: the client goes away now
-		time.Sleep(5 * time.Millisecond)
-		resp.closed <- true
-		if strings.HasPrefix(id, "WriteBlock:") {
-			// WriteBlock runs in its own goroutine: hold it until the handler has answered, so
-			// that what the writer sees next does not depend on goroutine scheduling.
-			select {
-			case <-handlerDone:
-			case <-time.After(20 * time.Second):
-				say("R cancel-timeout")
-				os.Exit(0)
-			}
-		} else {
-			time.Sleep(5 * time.Millisecond)
-		}
+		cancelNow(strings.HasPrefix(id, "WriteBlock:"))
 	})
 	result := "bad-op"
 	switch f[0] {
@@ -466,8 +571,8 @@ func (h *verifC02Hist) child(spec string) string {
 		switch {
 		case strings.HasPrefix(l, "P "):
 			points = append(points, l[2:])
-		case l == "X":
-			points = append(points, "X")
+		case l == "X" || l == "C":
+			points = append(points, l)
 		case strings.HasPrefix(l, "W "):
 			acked = l[2:]
 		case strings.HasPrefix(l, "R "):
